@@ -10,27 +10,27 @@ import (
 
 // ---- small constructors of descriptions ------------------------------------------------------------------------
 
-func fR() FragD              { return FragD{Kind: 'R'} }
-func fA() FragD              { return FragD{Kind: 'A'} }
-func fC(k string) FragD      { return FragD{Kind: 'C', Key: k} }
-func fN(n int) FragD         { return FragD{Kind: 'N', N: n} }
-func fW() FragD              { return FragD{Kind: 'W'} }
-func fD() FragD              { return FragD{Kind: 'D'} }
-func fU(ms ...any) FragD     { return FragD{Kind: 'U', Mems: ms} }
-func fS(ns ...int) FragD     { return FragD{Kind: 'S', Ints: ns} }
-func fF(e *EqD) FragD        { return FragD{Kind: 'F', Eq: e} }
-func vI(i int64) *EqD        { return &EqD{Val: &ValD{Kind: 'i', I: i}} }
-func vB(b bool) *EqD         { return &EqD{Val: &ValD{Kind: 'b', B: b}} }
-func vS(s string) *EqD       { return &EqD{Val: &ValD{Kind: 's', S: s}} }
-func vF(f float64) *EqD      { return &EqD{Val: &ValD{Kind: 'd', F: f}} }
-func vNil() *EqD             { return &EqD{Val: &ValD{Kind: 'n'}} }
-func vNothing() *EqD         { return &EqD{Val: &ValD{Kind: '0'}} }
-func vRx(s string) *EqD      { return &EqD{Val: &ValD{Kind: 'r', S: s}} }
-func vL(vs ...ValD) *EqD     { return &EqD{Val: &ValD{Kind: 'l', L: vs}} }
-func eGet(x ExprD) *EqD      { return &EqD{Op: "get", L: &EqD{Val: &ValD{Kind: 'x', X: x}}} }
-func eLen(x ExprD) *EqD      { return &EqD{Op: "length", L: &EqD{Val: &ValD{Kind: 'x', X: x}}} }
-func eCount(x ExprD) *EqD    { return &EqD{Op: "count", L: &EqD{Val: &ValD{Kind: 'x', X: x}}} }
-func eNot(e *EqD) *EqD       { return &EqD{Op: "not", L: e} }
+func fR() FragD           { return FragD{Kind: 'R'} }
+func fA() FragD           { return FragD{Kind: 'A'} }
+func fC(k string) FragD   { return FragD{Kind: 'C', Key: k} }
+func fN(n int) FragD      { return FragD{Kind: 'N', N: n} }
+func fW() FragD           { return FragD{Kind: 'W'} }
+func fD() FragD           { return FragD{Kind: 'D'} }
+func fU(ms ...any) FragD  { return FragD{Kind: 'U', Mems: ms} }
+func fS(ns ...int) FragD  { return FragD{Kind: 'S', Ints: ns} }
+func fF(e *EqD) FragD     { return FragD{Kind: 'F', Eq: e} }
+func vI(i int64) *EqD     { return &EqD{Val: &ValD{Kind: 'i', I: i}} }
+func vB(b bool) *EqD      { return &EqD{Val: &ValD{Kind: 'b', B: b}} }
+func vS(s string) *EqD    { return &EqD{Val: &ValD{Kind: 's', S: s}} }
+func vF(f float64) *EqD   { return &EqD{Val: &ValD{Kind: 'd', F: f}} }
+func vNil() *EqD          { return &EqD{Val: &ValD{Kind: 'n'}} }
+func vNothing() *EqD      { return &EqD{Val: &ValD{Kind: '0'}} }
+func vRx(s string) *EqD   { return &EqD{Val: &ValD{Kind: 'r', S: s}} }
+func vL(vs ...ValD) *EqD  { return &EqD{Val: &ValD{Kind: 'l', L: vs}} }
+func eGet(x ExprD) *EqD   { return &EqD{Op: "get", L: &EqD{Val: &ValD{Kind: 'x', X: x}}} }
+func eLen(x ExprD) *EqD   { return &EqD{Op: "length", L: &EqD{Val: &ValD{Kind: 'x', X: x}}} }
+func eCount(x ExprD) *EqD { return &EqD{Op: "count", L: &EqD{Val: &ValD{Kind: 'x', X: x}}} }
+func eNot(e *EqD) *EqD    { return &EqD{Op: "not", L: e} }
 func eBin(op string, l, r *EqD) *EqD {
 	return &EqD{Op: op, L: l, R: r}
 }
